@@ -359,3 +359,110 @@ func trunc(s string, n int) string {
 	}
 	return s
 }
+
+// Partial is the mergeable state of a Run (used to combine worker subprocesses).
+type Partial struct {
+	Evaluations int64            `json:"evaluations"`
+	Distinct    []string         `json:"distinct"`
+	Outcomes    map[string]int64 `json:"outcomes"`
+	Samples     []any            `json:"samples"`
+	Violations  []Violation      `json:"violations"`
+	VioClasses  map[string]int   `json:"vio_classes"`
+	VioTotal    int              `json:"vio_total"`
+	Extra       map[string]any   `json:"extra"`
+	CapsHit     []string         `json:"caps_hit"`
+	States      int64            `json:"states"`
+	Transitions int64            `json:"transitions"`
+	Validated   int64            `json:"validated"`
+	KnownSeen   map[string]int64 `json:"known_seen"`
+}
+
+// ExportPartial writes the run's state to path instead of finishing it.
+func (r *Run) ExportPartial(path string) error {
+	r.mu.Lock()
+	defer r.mu.Unlock()
+	p := Partial{Evaluations: r.evaluations.Load(), Outcomes: r.outcomes, Samples: r.samples, Violations: r.violations, VioClasses: r.vioClasses,
+		VioTotal: r.vioTotal, Extra: r.extra, CapsHit: r.capsHit, States: r.states, Transitions: r.transitions, Validated: r.validated, KnownSeen: map[string]int64{}}
+	for k := range r.distinct {
+		p.Distinct = append(p.Distinct, k)
+	}
+	for _, k := range r.known {
+		if k.seen > 0 {
+			p.KnownSeen[k.KeyRegex] = k.seen
+		}
+	}
+	b, err := json.Marshal(p)
+	if err != nil {
+		return err
+	}
+	return os.WriteFile(path, b, 0o644)
+}
+
+// MergePartial adds a worker's partial results.
+func (r *Run) MergePartial(path string) error {
+	b, err := os.ReadFile(path)
+	if err != nil {
+		return err
+	}
+	var p Partial
+	if err := json.Unmarshal(b, &p); err != nil {
+		return err
+	}
+	r.evaluations.Add(p.Evaluations)
+	r.mu.Lock()
+	defer r.mu.Unlock()
+	for _, k := range p.Distinct {
+		r.distinct[k] = struct{}{}
+	}
+	for k, v := range p.Outcomes {
+		r.outcomes[k] += v
+	}
+	for _, s := range p.Samples {
+		if len(r.samples) < r.sampleCap {
+			r.samples = append(r.samples, s)
+		}
+	}
+	r.violations = append(r.violations, p.Violations...)
+	for k, v := range p.VioClasses {
+		r.vioClasses[k] += v
+	}
+	r.vioTotal += p.VioTotal
+	for k, v := range p.Extra {
+		if old, ok := r.extra[k]; ok {
+			// numeric minima for "*_completed*" keys, otherwise keep a list
+			if of, ok1 := old.(float64); ok1 {
+				if nf, ok2 := v.(float64); ok2 && strings.Contains(k, "completed") {
+					if nf < of {
+						r.extra[k] = nf
+					}
+					continue
+				}
+			}
+			if oi, ok1 := old.(int); ok1 {
+				if nf, ok2 := v.(float64); ok2 && strings.Contains(k, "completed") {
+					if int(nf) < oi {
+						r.extra[k] = int(nf)
+					}
+					continue
+				}
+			}
+			if fmt.Sprint(old) == fmt.Sprint(v) {
+				continue
+			}
+			r.extra[k] = []any{old, v}
+			continue
+		}
+		r.extra[k] = v
+	}
+	if len(p.CapsHit) > 0 {
+		r.exhaustive = false
+		r.capsHit = append(r.capsHit, p.CapsHit...)
+	}
+	r.states += p.States
+	r.transitions += p.Transitions
+	r.validated += p.Validated
+	for _, k := range r.known {
+		k.seen += p.KnownSeen[k.KeyRegex]
+	}
+	return nil
+}
